@@ -303,7 +303,7 @@ h!(c10_q_task_order, 2, {
 });
 
 // fully symbolic schedule: arrival permutation and grouping bits are solver variables
-h!(c10_q_symbolic_n2, 7, {
+h!(c10_t_symbolic_n2, 7, {
     let (p, sd) = run::<2>();
     kani::cover!(p[0] == 1, "batch 1 arrives before batch 0");
     kani::cover!(commit_at(0) == 2, "both logical batches in one physical commit");
